@@ -99,7 +99,17 @@ func (t *Text) GenerateOutput(textOnly bool) string {
 			}
 		}
 
+		if srcRoot == nil {
+			break
+		}
+
 		srcRoot = domutil.GetParentElement(srcRoot)
+		if srcRoot == nil {
+			// The text lives in an inline element that has no parent element, e.g.
+			// when a <span> is the root of the distilled tree.
+			break
+		}
+
 		if dom.TagName(srcRoot) == "body" {
 			break
 		}
